@@ -211,9 +211,10 @@ class Recorder:
         elif op == "broadcast":
             p.send_communication_command(self.command(proto, "broadcast", req[1], None))
         elif op == "goto":
-            p.send_mobility_command(GotoCoordsMobilityCommand(*[self.num(c) for c in bitsv3(req[1:4])]))
+            p.send_mobility_command(self.mcommand(proto, GotoCoordsMobilityCommand,
+                                                  [self.num(c) for c in bitsv3(req[1:4])]))
         elif op == "gotoGeo":
-            p.send_mobility_command(GotoGeoCoordsMobilityCommand(*bitsv3(req[1:4])))
+            p.send_mobility_command(self.mcommand(proto, GotoGeoCoordsMobilityCommand, list(bitsv3(req[1:4]))))
         elif op == "setSpeed":
             p.send_mobility_command(SetSpeedMobilityCommand(self.num(bitsf(req[1]))))
         elif op == "setRange":
@@ -224,6 +225,23 @@ class Recorder:
             ctl.set_transmission_range(self.num(bitsf(req[1])))
         else:
             raise ValueError(f"unknown request {op}")
+
+    def mcommand(self, proto, cls, params):
+        """a fresh mobility command per request, or (scenario flag reuseCommands) one long-lived object per
+        protocol instance and kind, re-sent as it is when the same place is requested again and with its
+        parameters overwritten otherwise (a rally point kept as a constant, a stored command re-sent from a timer)"""
+        if not self.scn.get("reuseCommands"):
+            return cls(*params)
+        key = (id(proto), cls.__name__)
+        cmd = self.commands.get(key)
+        if cmd is None or self.commands.get((key, "params")) != params:
+            if cmd is None:
+                cmd = cls(*params)
+                self.commands[key] = cmd
+            else:
+                cmd.param_1, cmd.param_2, cmd.param_3 = params
+            self.commands[(key, "params")] = list(params)
+        return cmd
 
     def command(self, proto, kind, msg, dst):
         """a fresh command object per request, or (scenario flag reuseCommands) one long-lived object
@@ -382,6 +400,10 @@ def build(scn, rec, sim_options=None):
         ids.append(builder.add_node(cls, bitsv3(cfg["initPos"][i])))
     if late and scn["lateConfig"] == "beforeBuild":
         conf.duration, conf.max_iterations = duration, cfg["maxIter"]
+    if scn.get("rebuild"):
+        # scenario flag rebuild: the builder is asked twice (the repeat-the-experiment loop); the first
+        # simulator is discarded unused, the observed one is the second
+        builder.build()
     sim = builder.build()
     if late and scn["lateConfig"] != "beforeBuild":
         conf.duration, conf.max_iterations = duration, cfg["maxIter"]
@@ -408,7 +430,7 @@ class Shadow:
         s2["cfg"]["maxIter"] = None
         if sh.get("defaultRange"):
             s2["cfg"]["defaultRange"] = sh["defaultRange"]
-        for k in ("lateConfig", "pollDone"):
+        for k in ("lateConfig", "pollDone", "rebuild"):
             s2.pop(k, None)
         if sh.get("refGeo"):
             s2["cfg"]["refGeo"] = sh["refGeo"]
